@@ -25,7 +25,7 @@ Qed.
 Lemma pend_start_recv_frame (P : N * bytes -> Prop) f s :
   Forall P (pend_start s) -> Forall P (pend_start (fst (recv_frame f s))).
 Proof.
-  hm_unfold. destruct f as [c|m]; [|destruct m]; p_split; intros H; try exact H; try constructor;
+  hm_unfold. destruct f as [c|m]; [|destruct m]; p_split; unfold close_pend; p_split; intros H; try exact H; try constructor;
     try (apply dict_del_Forall; exact H).
 Qed.
 
@@ -40,7 +40,8 @@ Lemma pend_start_step_o (P : N * bytes -> Prop) o s : not_rx o = true ->
   Forall P (pend_start s) -> (forall d, o = OSend d -> in_term s = false -> P (next_id s, d)) ->
   Forall P (pend_start (step s o)).
 Proof.
-  intros Ho. destruct o; try discriminate Ho; st_unfold; p_split; intros H Hs; try exact H;
+  intros Ho. destruct o; try discriminate Ho; st_unfold; p_split; unfold close_pend; p_split; intros H Hs; try exact H;
+    try constructor;
     try (apply Forall_app; split; [exact H|constructor; [apply Hs; reflexivity|constructor]]);
     try (match goal with E : pend_start s = _ :: _ |- _ => rewrite E in H; inversion H; assumption end);
     try (match goal with E : pend_start s = [] |- _ => rewrite E; constructor end);
